@@ -1,12 +1,21 @@
 (* C09 - Declared constraints hold exactly.  Property theorems only.
    Spec: Model/ConstrSpec.v (valid_db, exec_write = apply then keep iff valid).
    Implementation models: Model/CheckStr.v (CHECK text + string evaluator), Model/ConstrImpl.v
-   (INSERT / UPDATE / DELETE mechanisms), finding classes: Model/ConstrClass.v. *)
+   (INSERT / UPDATE / DELETE mechanisms), finding classes: Model/ConstrClass.v; invariant and
+   well-formed schemas: Proof/ConstrBase.v (Inv, wf_schema). *)
 From Coq Require Import ZArith List Bool.
 From TV Require Import Model.SqlSpec Model.CheckStr Model.ConstrSpec Model.ConstrImpl Model.ConstrClass
-                       Proof.CheckStrMain.
+                       Proof.CheckStrMain Proof.ConstrBase Proof.ConstrIns Corr.C09 Proof.ConstrRefute.
 Import ListNotations.
 Open Scope Z_scope.
+
+(* the reference: a write is accepted iff the database it produces satisfies every declared
+   constraint; an accepted write yields that database, a refused one changes nothing *)
+Theorem spec_accepts_iff_valid :
+  forall sch d s,
+    (fst (exec_write sch d s) = true <-> valid_db sch (apply_stmt sch d s) = true) /\
+    snd (exec_write sch d s) = (if fst (exec_write sch d s) then apply_stmt sch d s else d).
+Proof. exact spec_accepts_iff_valid_l. Qed.
 
 (* CHECK: on the fragment OR-of-ANDs of `<column> {<,<=,>,>=} <integer literal below 2^53>` (at
    most 30 comparisons) what INSERT / UPDATE compute from the text stored by CREATE TABLE is
@@ -18,9 +27,53 @@ Theorem check_eval_agrees :
     (exists z, nth_error r ci = Some (VInt z)) \/ nth_error r ci = Some VNull ->
     impl_check (cnames n) ci e (col_val ci r) = COk (chk_b e r).
 Proof. exact check_eval_agrees_l. Qed.
-Check check_eval_agrees :
-  forall n ci e r,
-    (ci < n)%nat -> (n <= 10)%nat -> chk_frag ci e = true ->
-    (exists z, nth_error r ci = Some (VInt z)) \/ nth_error r ci = Some VNull ->
-    impl_check (cnames n) ci e (col_val ci r) = COk (chk_b e r).
+
+(* the empty database (no rows, empty indexes) satisfies the invariant *)
+Theorem inv_initial : forall sch, Inv sch (d_empty sch).
+Proof. exact inv_empty. Qed.
+
+(* INSERT: for every well-formed schema (CHECKs in the fragment, foreign keys to declared keys),
+   every state of the implementation model that satisfies the invariant (valid database, unique
+   indexes exact) and every INSERT of fitting rows outside class 10 (a multi-row INSERT that fails
+   after its first row): the implementation accepts iff the reference does -- NOT NULL, CHECK,
+   PRIMARY KEY / UNIQUE via index probes, FOREIGN KEY via the parent's index --, the visible
+   tables afterwards are the reference's, and the invariant holds again *)
+Theorem insert_exact :
+  forall sch st t (rows : list row),
+    wf_schema sch -> Inv sch st ->
+    forallb (row_fits (length (cols_of sch t))) rows = true ->
+    ins_partial sch t st rows = false ->
+    exists ok st', impl_step sch st (SIns t rows) = (Some ok, st') /\
+                   exec_write sch (abs_db st) (SIns t rows) = (ok, abs_db st') /\ Inv sch st'.
+Proof. exact insert_exact_l. Qed.
+
+(* every recorded finding class is a genuine failure: a history as the real database answered it,
+   reproduced by the implementation model, refused by the reference, in the stated class *)
+Theorem constraints_refuted :
+  refutes 1 wit_1 /\ refutes 2 wit_2 /\ refutes 3 wit_3 /\ refutes 4 wit_4 /\ refutes 10 wit_10 /\
+  refutes 11 wit_11 /\ refutes 12 wit_12 /\ refutes 13 wit_13 /\ refutes 14 wit_14 /\ refutes 15 wit_15 /\
+  refutes 16 wit_16 /\ refutes 17 wit_17 /\ refutes 18 wit_18 /\ refutes 19 wit_19.
+Proof. exact constraints_refuted_l. Qed.
+
+(* non-vacuity: a well-formed schema with all four constraint kinds, reachable states satisfying
+   the invariant are not needed to be exhibited separately -- the empty database does *)
+Example c09_witness_schema :
+  let sch := mkSch [mkCol 1 false None None; mkCol 2 false (Some (EOr (ECmp CLt (ECol 1) (ELit (VInt 0))) (EAnd (ECmp CGe (ECol 1) (ELit (VInt 3))) (ECmp CLe (ECol 1) (ELit (VInt 9)))))) None]
+                   [mkCol 1 false None None; mkCol 0 true None (Some (mkFk 0 2))] in
+  schema_class sch = 0 /\ chk_frag 1 (EOr (ECmp CLt (ECol 1) (ELit (VInt 0))) (EAnd (ECmp CGe (ECol 1) (ELit (VInt 3))) (ECmp CLe (ECol 1) (ELit (VInt 9))))) = true /\
+  fst (impl_step sch (d_empty sch) (SIns TP [[VInt 1; VInt 5]])) = Some true /\
+  fst (impl_step sch (d_empty sch) (SIns TP [[VInt 1; VInt 2]])) = Some false /\
+  fst (impl_step sch (snd (impl_step sch (d_empty sch) (SIns TP [[VInt 1; VInt 5]]))) (SIns TC [[VInt 7; VInt 1]])) = Some true /\
+  fst (impl_step sch (snd (impl_step sch (d_empty sch) (SIns TP [[VInt 1; VInt 5]]))) (SIns TC [[VInt 7; VInt 2]])) = Some false.
+Proof. vm_compute. repeat split. Qed.
+
+Check spec_accepts_iff_valid : forall sch d s, (fst (exec_write sch d s) = true <-> valid_db sch (apply_stmt sch d s) = true) /\ snd (exec_write sch d s) = (if fst (exec_write sch d s) then apply_stmt sch d s else d).
+Check check_eval_agrees : forall n ci e r, (ci < n)%nat -> (n <= 10)%nat -> chk_frag ci e = true -> (exists z, nth_error r ci = Some (VInt z)) \/ nth_error r ci = Some VNull -> impl_check (cnames n) ci e (col_val ci r) = COk (chk_b e r).
+Check insert_exact : forall sch st t (rows : list row), wf_schema sch -> Inv sch st -> forallb (row_fits (length (cols_of sch t))) rows = true -> ins_partial sch t st rows = false -> exists ok st', impl_step sch st (SIns t rows) = (Some ok, st') /\ exec_write sch (abs_db st) (SIns t rows) = (ok, abs_db st') /\ Inv sch st'.
+Check constraints_refuted : refutes 1 wit_1 /\ refutes 2 wit_2 /\ refutes 3 wit_3 /\ refutes 4 wit_4 /\ refutes 10 wit_10 /\ refutes 11 wit_11 /\ refutes 12 wit_12 /\ refutes 13 wit_13 /\ refutes 14 wit_14 /\ refutes 15 wit_15 /\ refutes 16 wit_16 /\ refutes 17 wit_17 /\ refutes 18 wit_18 /\ refutes 19 wit_19.
+Check inv_initial : forall sch, Inv sch (d_empty sch).
+Print Assumptions spec_accepts_iff_valid.
+Print Assumptions inv_initial.
 Print Assumptions check_eval_agrees.
+Print Assumptions insert_exact.
+Print Assumptions constraints_refuted.
